@@ -150,6 +150,7 @@ let handle fields impl : string option * string list =
         if starts iobs "panic" && m = "panic" then iobs else if starts iobs "err" && m = "err" then iobs else m
       | _ -> "driver: unknown op " ^ op) ops in
     (Some (String.concat "+" outs), List.rev !mons)
+  | "gs-unobserved" :: _ -> (None, [])   (* ping processing did not finish within a minute: proves nothing either way *)
   | _ -> (Some "driver: unknown line", [])
 
 let () = Util.run handle
